@@ -24,6 +24,11 @@ state) and recomputes ARCOUNT from the reservations.
 (b') the Writer invariant 12 <= rr_start <= cursor <= available <= limit <= len(octets) holds after every store (E5), and the
 raw writers' preconditions (position + len <= len(octets)) are proved at every call site: no operation writes outside
 the buffer or beyond the limit.
+(g) in case-preserving compression mode a name is never replaced by a pointer taken from a hint (hints promise equality
+only up to ASCII case), so decoded names keep the case they were given.
+(t) Error::Truncation is produced only by tests of the space actually about to be consumed (the amount compared with
+available - cursor is the amount the success path then consumes); no operation gives up on an estimate, so whatever
+fits is written.
 Not decided: decoded-equals-given for arbitrary operation sequences; "fits uncompressed => never truncates".
 """
 ASSUMPTIONS = ['trait-object and generic calls fan out to every implementation in the crate', 'every CFG path is assumed feasible']
@@ -34,6 +39,7 @@ def check(R, F):
     writer_inv.check(R, F, _S)
     e5.check_pres(R, F, _S, 'writer-invariant.pre', only=("message::writer::Writer::<'a>::write", "message::writer::Writer::<'a>::write_u16"))
     R.floor('writer-invariant.pre', 5)
+    wc.check_truncation_exact(R, F)
 
     # ---- (a)
     restored = wc.check_rollback_completeness(R, F, 'rollback')
@@ -79,3 +85,7 @@ def check(R, F):
     # ---- (e) clear_rrs
     wc.check_clear_rrs(R, F)
     R.floor('set-limit', 5)
+
+    # ---- (g) case-preserving mode never trusts a hint (shared with C13)
+    from rules import c13 as _c13
+    _c13.check_case_preserving(R, F)
